@@ -26,6 +26,9 @@ const (
 type Sched struct {
 	Mode int
 	P    float64
+	// OffsetKeys makes the rendezvous at storage.miss meet goroutines that miss
+	// on the same OFFSET in different lists (low 32 bits of the storage index).
+	OffsetKeys bool
 
 	mu        sync.Mutex
 	rng       *rand.Rand
@@ -112,6 +115,9 @@ func (s *Sched) Handle(name string, key int64) {
 	case ModeRendezvous:
 		if name != "storage.miss" && name != "file.seeked" && name != "rule.compile" {
 			return
+		}
+		if s.OffsetKeys && name == "storage.miss" {
+			key &= 0xFFFFFFFF
 		}
 		k := name + "/" + strconv.FormatInt(key, 10)
 		s.mu.Lock()
